@@ -99,4 +99,25 @@ def runPure2 (b : Bytes) : (List PosDesc × Bool) → (List PosDesc × Bool) →
   | eA, eB, (false, op) :: ops => (stepPure b eA op).1 :: runPure2 b (stepPure b eA op).2 eB ops
   | eA, eB, (true, op) :: ops => (stepPure b eB op).1 :: runPure2 b eA (stepPure b eB op).2 ops
 
+/-! ### any number of objects, each on its own file object (its own cursor), alive at once -/
+
+def updAt {α : Type} (f : Nat → α) (i : Nat) (a : α) : Nat → α := fun j => if j = i then a else f j
+
+/-- a history over SEVERAL index objects: object `i` reads `files i`; an operation on object `i` is `stepObj` on that
+object's state and touches no other object's state.  The output carries the object it belongs to. -/
+def runObjN (k : Bytes → RState → RState) (files : Nat → Bytes) : (Nat → IdxSt) → List (Nat × Op) → List (Nat × Out)
+  | _, [] => []
+  | sts, (i, op) :: ops =>
+    let r := stepObj k (files i) (sts i) op
+    (i, r.1) :: runObjN k files (updAt sts i r.2) ops
+
+/-- ONE object on its own, state-free (the single-object instance of `runPure2`) -/
+def runPure1 (b : Bytes) : (List PosDesc × Bool) → List Op → List Out
+  | _, [] => []
+  | e, op :: ops => (stepPure b e op).1 :: runPure1 b (stepPure b e op).2 ops
+
+/-- the operations of a history that address object `i` / the outputs that belong to it -/
+def opsOf (i : Nat) (ops : List (Nat × Op)) : List Op := ops.filterMap fun x => if x.1 = i then some x.2 else none
+def outsOf (i : Nat) (outs : List (Nat × Out)) : List Out := outs.filterMap fun x => if x.1 = i then some x.2 else none
+
 end TD.C02
